@@ -4,7 +4,7 @@
    typing.Any, the module itself).  The import set only grows, so nothing registered earlier is lost. *)
 From Coq Require Import List Ascii String Bool Arith ZArith Lia.
 From SV Require Import Lib.Str Gen.Tables Model.Types Model.Naming Model.Api Model.Back Spec.Markers
-  Proofs.TypesProofs Proofs.BackProofs Proofs.SortProofs Proofs.MarkerProofs.
+  Proofs.TypesProofs Proofs.BackProofs Proofs.SortProofs Proofs.MarkerProofs Proofs.GenProofs.
 Import ListNotations.
 
 (* the named types at the positions that are rendered, without the built-in mappings (int, str, ... : no class reference) *)
@@ -652,6 +652,188 @@ Section WithApi.
       apply function_string_imports in H; [destruct H as (I1 & F1)|cbn [negb andb]; rewrite (shorter_reexport_ids _ _ _ _ (proj1 IA)); exact HR] end.
     rewrite GA, G0 in F1.
     eapply Forall_imported_ids; [exact IA|]. eapply Forall_imported_mono; [|exact F1]. eapply imp_trans; eassumption.
+  Qed.
+
+  (* ---------- inside a class: attributes and methods ---------- *)
+  Definition attr_leaves (a : attr) : list (str * str) := match a_type a with Some t => named_leaves t | None => [] end.
+  Definition all_imported (s0 s' : gst) (l : list (str * str)) : Prop := Forall (fun nq => imported (snd nq) s0 s') l.
+
+  Lemma all_imported_mono l s0 s1 s2 : imp s1 s2 -> all_imported s0 s1 l -> all_imported s0 s2 l.
+  Proof. apply Forall_imported_mono. Qed.
+  Lemma all_imported_ids l s0 s0' s' : imp s0 s0' -> all_imported s0' s' l -> all_imported s0 s' l.
+  Proof. apply Forall_imported_ids. Qed.
+
+  Lemma class_attrs_imports ats inner : forall acc names s r s',
+    class_attrs classes reexport_map nc ats inner acc names s = Ok (r, s') ->
+    imp s s' /\ Forall (fun a => all_imported s s' (attr_leaves a)) (filter Markers.attr_rendered ats).
+  Proof.
+    induction ats as [|a rest IH]; intros acc names s r s' H; cbn [class_attrs] in H.
+    - minv_all. split; [apply imp_refl|constructor].
+    - cbn [filter]. unfold Markers.attr_rendered at 1.
+      destruct (a_public a); cbn [negb andb] in *; [|eauto].
+      destruct (match a_type a with Some (TTypeVar _ _) => true | _ => false end) eqn:TV; cbn [negb] in *; [eauto|].
+      minv_all.
+      match goal with H : type_string_opt _ _ _ _ _ = Ok _ |- _ => apply type_string_opt_imports in H; destruct H as (I1 & F1) end.
+      match goal with H : context [add_todo (K"attr without type")] |- _ =>
+        match type of H with ?ff ?sa = Ok (_, ?sb) => assert (I2 : imp sa sb);
+          [match type of H with (match ?t with [] => _ | _ :: _ => _ end) _ = _ => destruct t end;
+           [eapply add_todo_imp; exact H|minv_all; apply imp_refl]|clear H] end end.
+      match goal with H : create_todo_msg _ _ = Ok _ |- _ => apply create_todo_msg_imp in H; rename H into I3 end.
+      match goal with H : class_attrs _ _ _ _ _ _ _ _ = Ok _ |- _ => destruct (IH _ _ _ _ _ H) as (I4 & F4) end.
+      split; [ichain|]. constructor.
+      + unfold attr_leaves. eapply all_imported_mono; [|exact F1]. ichain.
+      + eapply Forall_impl; [|exact F4]. intros b Hb. eapply all_imported_ids; [|exact Hb]. ichain.
+  Qed.
+
+  Definition method_leaves (gens : list str) (m : func) : list (str * str) :=
+    if f_prop m then named_leaves (TUnion (flat_map (fun r => match r_type r with Some t => [t] | None => [] end) (f_results m)))
+    else func_leaves gens true m.
+
+  Lemma property_string_imports f indent s x s' :
+    property_string classes reexport_map nc f indent s = Ok (x, s') ->
+    imp s s' /\ g_class_generics s' = g_class_generics s /\
+    all_imported s s' (named_leaves (TUnion (flat_map (fun r => match r_type r with Some t => [t] | None => [] end) (f_results f)))).
+  Proof.
+    unfold property_string. intro H. minv_all.
+    match goal with H : type_string _ _ _ _ _ = Ok _ |- _ =>
+      destruct (type_string_marks _ _ _ _ _ _ _ H) as (? & (_ & _ & G1) & _); apply type_string_imports in H; destruct H as (I1 & F1) end.
+    match goal with H : create_todo_msg _ _ = Ok _ |- _ =>
+      destruct (create_todo_msg_text _ _ _ _ H) as (_ & _ & G2); apply create_todo_msg_imp in H end.
+    split; [ichain|]. split; [congruence|]. eapply all_imported_mono; [|exact F1]. assumption.
+  Qed.
+
+  Lemma class_methods_imports ms inner ic already : forall props meths names s r s',
+    class_methods classes reexport_map nc ms inner ic already props meths names s = Ok (r, s') ->
+    imp s s' /\ g_class_generics s' = g_class_generics s /\
+    Forall (fun m => all_imported s s' (method_leaves (g_class_generics s) m)) (filter (fun m => negb (method_skipped ic already m)) ms).
+  Proof.
+    induction ms as [|m rest IH]; intros props meths names s r s' H; cbn [class_methods filter] in H |- *.
+    - minv_all. split; [apply imp_refl|]. split; [reflexivity|constructor].
+    - fold (method_skipped ic already m) in H. destruct (method_skipped ic already m) eqn:SK; cbn [negb]; [eauto|].
+      destruct (f_prop m) eqn:FP; minv_all.
+      + match goal with H : property_string _ _ _ _ _ _ = Ok _ |- _ => apply property_string_imports in H; destruct H as (I1 & G1 & F1) end.
+        match goal with H : class_methods _ _ _ _ _ _ _ _ _ _ _ = Ok _ |- _ => destruct (IH _ _ _ _ _ _ H) as (I2 & G2 & F2) end.
+        split; [ichain|]. split; [congruence|]. constructor; [unfold method_leaves; rewrite FP; eapply all_imported_mono; eassumption|].
+        eapply Forall_impl; [|exact F2]. intros b Hb. rewrite G1 in Hb. eapply all_imported_ids; eassumption.
+      + match goal with H : function_string _ _ _ _ _ _ _ _ = Ok _ |- _ =>
+          pose proof (function_string_generics _ _ _ _ _ _ _ H) as G1;
+          destruct (function_string_imports _ _ _ _ _ _ _ H eq_refl) as (I1 & F1); clear H end.
+        match goal with H : class_methods _ _ _ _ _ _ _ _ _ _ _ = Ok _ |- _ => destruct (IH _ _ _ _ _ _ H) as (I2 & G2 & F2) end.
+        split; [ichain|]. split; [congruence|]. constructor; [unfold method_leaves; rewrite FP; eapply all_imported_mono; eassumption|].
+        eapply Forall_impl; [|exact F2]. intros b Hb. rewrite G1 in Hb. eapply all_imported_ids; eassumption.
+  Qed.
+
+  (* ---------- a whole class written here ---------- *)
+  Definition class_sig_leaves (c : cls) : list (str * str) :=
+    (if is_abstract c then [] else match c_ctor c with Some k => flat_map param_leaves (tl (f_params k)) | None => [] end) ++
+    (if nonempty (c_tparams c) || nonempty (match c_ctor c with Some k => f_tvars k | None => [] end)
+     then flat_map (fun tp => match tp_type tp with Some t => named_leaves t | None => [] end) (c_tparams c) else []).
+
+  Lemma ctor_block_imports (c : cls) indent s x s' :
+    (if is_abstract c then ret []
+     else mdo pi <- (match c_ctor c with
+                     | Some k => parameter_string classes reexport_map nc (f_params k) indent true
+                     | None => ret []
+                     end);
+          ret (K"(" ++ pi ++ K")")) s = Ok (x, s') ->
+    imp s s' /\ all_imported s s' (if is_abstract c then [] else match c_ctor c with Some k => flat_map param_leaves (tl (f_params k)) | None => [] end).
+  Proof.
+    destruct (is_abstract c); intro H; minv_all; [split; [apply imp_refl|constructor]|].
+    destruct (c_ctor c) as [k|]; minv_all; [|split; [apply imp_refl|constructor]].
+    match goal with H : parameter_string _ _ _ _ _ _ _ = Ok _ |- _ => exact (parameter_string_imports _ _ _ _ _ _ H) end.
+  Qed.
+
+  Lemma variance_block_imports (c : cls) s x s' :
+    (if nonempty (c_tparams c) || nonempty (match c_ctor c with Some k => f_tvars k | None => [] end) then
+       modify (with_generics (fun _ => [])) ;;
+       mmap (fun tp => let item := variance_prefix (tp_variance tp) ++ conv_esc nc (tp_name tp) in
+                       mdo item' <- (match tp_type tp with
+                                     | Some t => mdo x <- type_string classes reexport_map nc t; ret (item ++ K" sub " ++ x)
+                                     | None => ret item
+                                     end);
+                       modify (with_generics (fun g => g ++ [item']))) (c_tparams c) ;;
+       mmap (fun tv : str * option ty =>
+               mdo s' <- get;
+               if mem_str (fst tv) (g_class_generics s') then ret tt
+               else modify (with_generics (fun g => g ++ [fst tv]))) (match c_ctor c with Some k => f_tvars k | None => [] end) ;;
+       mdo s' <- get;
+       match g_class_generics s' with
+       | [] => ret []
+       | g => ret (K"<" ++ join (K", ") g ++ K">")
+       end
+     else ret []) s = Ok (x, s') ->
+    imp s s' /\
+    all_imported s s' (if nonempty (c_tparams c) || nonempty (match c_ctor c with Some k => f_tvars k | None => [] end)
+                       then flat_map (fun tp => match tp_type tp with Some t => named_leaves t | None => [] end) (c_tparams c) else []).
+  Proof.
+    destruct (_ || _); intro H; minv_all; [|split; [apply imp_refl|constructor]].
+    match goal with H : mmap _ (c_tparams c) _ = Ok _ |- _ =>
+      eapply (mmap_imp _ (fun tp => match tp_type tp with Some t => named_leaves t | None => [] end)) in H; [destruct H as (I1 & F1)|] end.
+    - match goal with H : mmap _ _ _ = Ok _ |- _ => eapply mmap_imp_only in H end.
+      + match goal with H : (match g_class_generics ?sa with [] => _ | _ => _ end) ?sa = Ok _ |- _ =>
+          assert (s' = sa) by (destruct (g_class_generics sa); minv_all; reflexivity); subst end.
+        assert (I0 : imp s (with_generics (fun _ => []) s)) by (split; [repeat split|apply incl_refl]).
+        split; [ichain|]. eapply all_imported_ids; [exact I0|]. eapply all_imported_mono; eassumption.
+      + intros tv s1 y s2 HS. cbn beta in HS. minv_all. destruct (mem_str _ _); minv_all; [apply imp_refl|split; [repeat split|apply incl_refl]].
+    - apply Forall_forall. intros tp _ s1 y s2 HS. cbn beta zeta in HS. minv_all.
+      destruct (tp_type tp) as [t|]; minv_all.
+      + match goal with H : type_string _ _ _ _ _ = Ok _ |- _ => apply type_string_imports in H; destruct H as (I1 & F1) end.
+        assert (I2 : forall f z, imp z (with_generics f z)) by (intros f z; split; [repeat split|apply incl_refl]).
+        split; [eapply imp_trans; [exact I1|apply I2]|]. eapply Forall_imported_mono; [apply I2|exact F1].
+      + split; [split; [repeat split|apply incl_refl]|constructor].
+  Qed.
+
+  Theorem class_string_imports fu c indent rx s x s' :
+    class_string classes reexport_map nc (S fu) c indent rx s = Ok (x, s') ->
+    (if negb rx then shorter_reexport (c_name c) (c_reexported_by c) s else None) = None ->
+    imp s s' /\ all_imported s s' (class_sig_leaves c) /\
+    Forall (fun a => all_imported s s' (attr_leaves a)) (filter Markers.attr_rendered (c_attrs c)) /\
+    (exists gens, Forall (fun m => all_imported s s' (method_leaves gens m)) (filter (fun m => negb (method_skipped false [] m)) (c_methods c))) /\
+    Forall (fun sc => imported sc s s')
+           (if nonempty (c_supers c) && negb (is_abstract c) then filter (fun sc => negb (is_internal (super_name sc))) (c_supers c) else []).
+  Proof.
+    cbn [class_string]. intros H HR. minv_all. rewrite HR in *. mstep.
+    match goal with H : (if is_abstract c then _ else _) _ = Ok _ |- _ => apply ctor_block_imports in H; destruct H as (I1 & F1) end.
+    match goal with H : (if nonempty (c_tparams c) || _ then _ else _) _ = Ok _ |- _ => apply variance_block_imports in H; destruct H as (I2 & F2) end.
+    match goal with H : create_todo_msg _ _ = Ok _ |- _ => apply create_todo_msg_imp in H; rename H into I3 end.
+    match goal with H : class_attribute_string _ _ _ _ _ _ = Ok _ |- _ =>
+      unfold class_attribute_string in H; minv_all;
+      match goal with p : (list str * list str)%type |- _ => destruct p as [? ?] end; minv_all end.
+    match goal with H : class_attrs _ _ _ _ _ _ _ _ = Ok _ |- _ => apply class_attrs_imports in H; destruct H as (I4 & F4) end.
+    match goal with H : mmap _ (c_classes c) _ = Ok _ |- _ => eapply mmap_imp_only in H; [rename H into I5|] end.
+    2:{ intros ic sa1 y sa2 HS. cbn beta in HS. destruct (c_public ic); minv_all; [eapply class_string_imp; eassumption|apply imp_refl]. }
+    match goal with H : class_method_string _ _ _ _ _ _ _ _ = Ok _ |- _ =>
+      unfold class_method_string in H; minv_all;
+      match goal with p : (list str * list str * list str)%type |- _ => destruct p as [[? ?] ?] end; minv_all end.
+    match goal with H : class_methods _ _ _ _ _ _ _ _ _ _ ?sa = Ok _ |- _ =>
+      apply class_methods_imports in H; destruct H as (I6 & _ & F6); remember (g_class_generics sa) as gens eqn:EG; clear EG end.
+    match goal with H : (if nonempty (c_supers c) && negb (is_abstract c) then _ else _) ?sa = Ok (_, ?sb) |- _ =>
+      assert (IS : imp sa sb /\ Forall (fun sc => imported sc sa sb)
+                     (if nonempty (c_supers c) && negb (is_abstract c) then filter (fun sc => negb (is_internal (super_name sc))) (c_supers c) else []));
+      [|clear H] end.
+    { destruct (nonempty (c_supers c) && negb (is_abstract c)).
+      - match goal with HS : super_loop _ _ _ _ _ _ _ = Ok _ |- _ => eapply super_loop_imports in HS; [exact HS|] end.
+        intros sc0 sa x' sb HI. cbn beta in HI. exact (proj2 (class_strings_imp fu) _ _ _ _ _ _ HI).
+      - minv_all. split; [apply imp_refl|constructor]. }
+    destruct IS as (I7 & F7).
+    match goal with H : (if 2 <=? ?n then _ else _) _ = Ok _ |- _ => apply if_add_todo_imp in H; rename H into I8 end.
+    match goal with H : create_todo_msg _ _ = Ok _ |- _ => apply create_todo_msg_imp in H; rename H into I9 end.
+    match goal with H : _ = Ok (x, s') |- _ => match type of H with context [match ?t with [] => _ | _ :: _ => _ end] => destruct t end end; minv_all.
+    all: match goal with |- imp _ ?sf /\ _ =>
+      assert (IA : imp s sf) by ichain;
+      match type of F1 with all_imported _ ?sb _ => assert (J1 : imp sb sf) by ichain end;
+      match type of F2 with all_imported ?sa ?sb _ => assert (J2 : imp sb sf) by ichain end;
+      match type of F4 with Forall (fun a => all_imported ?sa ?sb _) _ => assert (J4a : imp s sa) by ichain; assert (J4b : imp sb sf) by ichain end;
+      match type of F6 with Forall (fun a => all_imported ?sa ?sb _) _ => assert (J6a : imp s sa) by ichain; assert (J6b : imp sb sf) by ichain end;
+      match type of F7 with Forall (fun a => imported _ ?sa ?sb) _ => assert (J7a : imp s sa) by ichain; assert (J7b : imp sb sf) by ichain end
+    end.
+    all: refine (conj IA (conj _ (conj _ (conj _ _)))).
+    all: try (unfold class_sig_leaves; apply Forall_app; split;
+              [eapply all_imported_mono; [exact J1|exact F1]
+              |eapply all_imported_ids; [exact I1|]; eapply all_imported_mono; [exact J2|exact F2]]).
+    all: try (eapply Forall_impl; [|exact F4]; intros ? Hz; eapply all_imported_ids; [exact J4a|]; eapply all_imported_mono; [exact J4b|exact Hz]).
+    all: try (exists gens; eapply Forall_impl; [|exact F6]; intros ? Hz; eapply all_imported_ids; [exact J6a|]; eapply all_imported_mono; [exact J6b|exact Hz]).
+    all: eapply Forall_impl; [|exact F7]; intros ? Hz; eapply imported_ids; [exact (proj1 J7a)|]; eapply imported_mono; [exact (proj2 J7b)|exact Hz].
   Qed.
 
   (* the import block of a module prints every member of the import set *)
